@@ -1,4 +1,5 @@
 import NutilsVerif.Model.C06
+import NutilsVerif.Model.C06Expr
 open NutilsVerif NutilsVerif.Proto NutilsVerif.C06
 
 def parseNum (s : String) : Option PyNum :=
@@ -73,12 +74,103 @@ def tf (cls : String) (args : List String) : Option (Option Rng) :=
   | "SearchSorted", [l] => do some (tfSearchSorted (← parseRng l))
   | _, _ => none
 
+/-- prefix notation, fixed arities:  `add <e> <e>`, `const s|v <k> <v1> … <vk>`, `argS <name> <lo> <hi>`, `argV <name> <lo> <hi> <e>`, … -/
+partial def parseExpr : List String → Option (Expr × List String)
+  | "const" :: sc :: k :: rest => do
+    let k ← k.toNat?
+    let vals ← (rest.take k).mapM (·.toInt?)
+    if vals.length ≠ k then none else
+    let sc ← if sc == "s" then some true else if sc == "v" then some false else none
+    some (.const sc vals, rest.drop k)
+  | "argS" :: n :: lo :: hi :: rest => do some (.argS (← n.toNat?) (← parseNum lo) (← parseNum hi), rest)
+  | "argV" :: n :: lo :: hi :: rest => do
+    let (len, rest) ← parseExpr rest
+    some (.argV (← n.toNat?) (← parseNum lo) (← parseNum hi) len, rest)
+  | "loopIndex" :: id :: rest => do
+    let (len, rest) ← parseExpr rest
+    some (.loopIndex (← id.toNat?) len, rest)
+  | "loopSum" :: id :: rest => do
+    let (len, rest) ← parseExpr rest
+    let (body, rest) ← parseExpr rest
+    some (.loopSum (← id.toNat?) len body, rest)
+  | "loopConcat" :: id :: rest => do
+    let (len, rest) ← parseExpr rest
+    let (body, rest) ← parseExpr rest
+    let (blen, rest) ← parseExpr rest
+    some (.loopConcat (← id.toNat?) len body blen, rest)
+  | "ravelIndex" :: rest => do
+    let (a, rest) ← parseExpr rest
+    let (b, rest) ← parseExpr rest
+    let (c, rest) ← parseExpr rest
+    some (.ravelIndex a b c, rest)
+  | op :: rest =>
+    match op with
+    | "neg" | "abs" | "sign" | "range" => do
+      let (a, rest) ← parseExpr rest
+      let e ← match op with
+        | "neg" => some (Expr.neg a) | "abs" => some (.abs a) | "sign" => some (.sign a) | "range" => some (.range a) | _ => none
+      some (e, rest)
+    | _ => do
+      let (a, rest) ← parseExpr rest
+      let (b, rest) ← parseExpr rest
+      let e ← match op with
+        | "add" => some (Expr.add a b) | "mul" => some (.mul a b) | "floordiv" => some (.floordiv a b) | "mod" => some (.mod a b)
+        | "min" => some (.min a b) | "max" => some (.max a b) | "inRange" => some (.inRange a b) | "normDim" => some (.normDim a b)
+        | "insertAxis" => some (.insertAxis a b) | "take" => some (.take a b) | "sum" => some (.sum a b)
+        | "sizesToOffsets" => some (.sizesToOffsets a b) | _ => none
+      some (e, rest)
+  | [] => none
+
+/-- `name:v1,v2;name:…` -/
+def parseArgs (s : String) : Option (List (Nat × List Int)) :=
+  ((s.splitOn ";").filter (· ≠ "")).mapM fun item =>
+    match item.splitOn ":" with
+    | [n, vs] => do some ((← n.trimAscii.toString.toNat?), (← ((vs.splitOn ",").filter (· ≠ "")).mapM (·.trimAscii.toString.toInt?)))
+    | _ => none
+
+def mkEnv (args : List (Nat × List Int)) (loops : List (Nat × List Int)) : Env :=
+  { args := fun n => (args.lookup n).getD []
+    loops := fun i => ((loops.lookup i).getD []).headD 0 }
+
+def showDep : Dep → String
+  | .arg n => s!"a{n}"
+  | .loop i => s!"l{i}"
+
+def showSimp (e : Expr) : String :=
+  let r := match e with
+    | .inRange a b => (simpInRange a b).map fun _ => "0"
+    | .mod a b => (simpMod a b).map fun _ => "0"
+    | .normDim a b => (simpNormDim a b).map fun _ => "1"
+    | .min a b => (match simpMin a b, bounds a, bounds b with
+        | some _, some r1, some r2 => some (if PyNum.le r1.2 r2.1 then "0" else "1")
+        | _, _, _ => none)
+    | .max a b => (match simpMax a b, bounds a, bounds b with
+        | some _, some r1, some r2 => some (if PyNum.le r2.2 r1.1 then "0" else "1")
+        | _, _, _ => none)
+    | _ => none
+  r.getD "none"
+
 def handle (line : String) : String :=
   match fields line with
   | "tf" :: cls :: args =>
     match tf cls args with
     | some raw => showRes (bnd raw)
     | none => "bad-request"
+  | ["expr", toks, args, loops] =>
+    match parseExpr (words toks), parseArgs args, parseArgs loops with
+    | some (e, []), some args, some loops =>
+      let ev := match eval e (mkEnv args loops) with
+        | some v => showInts v
+        | none => "raise"
+      let deps := ",".intercalate ((deps e).eraseDups.map showDep)
+      let len := match lenOf e with
+        | none => "scalar"
+        | some l => (match scalarOf (eval l (mkEnv args loops)) with | some k => toString k | none => "raise")
+      let lenb := match lenOf e with
+        | none => "scalar"
+        | some l => showRes (bounds l)
+      s!"bounds={showRes (bounds e)};deps={deps};scalar={if isScalar e then 1 else 0};index={if isIndex e then 1 else 0};simp={showSimp e};len={len};lenbounds={lenb};eval={ev}"
+    | _, _, _ => "bad-request"
   | ["poly", nv, n] =>
     match nv.toNat?, n.toInt? with
     | some nv, some n =>
